@@ -128,7 +128,8 @@ func stackVariants(full bool) []struct {
 
 // Universe builds the signature universe. size: "small" (a star of ~140 signatures), "medium" (nearly the full product, ~530), "large" (full product with more contexts and stack variants).
 func Universe(size string) []SnapVariant {
-	states := []string{"chan receive", "select"}
+	// the third state differs from the first by the runtime's parenthesised qualifier only
+	states := []string{"chan receive", "select", "chan receive (nil chan)"}
 	lockeds := []bool{false, true}
 	sleeps := []int{0, 7}
 	creators := []stack.Stack{
@@ -169,6 +170,9 @@ func Universe(size string) []SnapVariant {
 						}
 						if (ci == 3 || ci == 4) && !(si == 0 && li == 0 && sli == 0) {
 							continue // the multi-call creators only with the base state/lock/sleep (every size)
+						}
+						if si == 2 && !(li == 0 && sli == 0 && ci == 0) {
+							continue // the qualified state only with the base lock/sleep/creator (every size)
 						}
 						if size == "medium" && sli == 1 && ci == 2 && ki%2 == 1 {
 							continue
